@@ -48,6 +48,127 @@ def analysis_case(prog, fname_prog, source):
     return f"({c01_gen.coq_block(fname_prog['body'])}, {c01_gen.coq_globals(prog)}, {crow}, {clrow})", len(rows), len(lrows)
 
 
+# ---- reference: upward-exposed uses of a loop body by plain data flow (a loop runs zero or more times), computed on the
+# generated program itself.  What the real AstAnalyzer.exposed_uses reports for a loop body must contain it: a name it
+# misses is read by some path of the body before being written there, and (when the body also assigns it) the converter
+# does not carry it from one iteration to the next.
+
+def _uv(e, acc):
+    k = e[0]
+    if k in ("var", "glob"):
+        acc.add(e[1])
+    elif k == "un":
+        _uv(e[2], acc)
+    elif k in ("bin", "cmp"):
+        _uv(e[2], acc)
+        _uv(e[3], acc)
+    elif k in ("call", "fcall"):
+        for a in e[2]:
+            if a is not None:
+                _uv(a, acc)
+        for _kw, av in e[3]:
+            if av[0] == "ref":
+                acc.add(av[1])
+    return acc
+
+
+def _assigned_all(stmts, acc):
+    for s in stmts:
+        k = s[0]
+        if k == "assign":
+            acc.add(s[1])
+        elif k == "tassign":
+            acc.update(s[1])
+        elif k == "if":
+            _assigned_all(s[2], acc)
+            _assigned_all(s[3], acc)
+        elif k == "for":
+            acc.add(s[1])
+            _assigned_all(s[3], acc)
+        elif k == "while":
+            _assigned_all(s[2], acc)
+    return acc
+
+
+def _ref_exposed(stmts, live, const):
+    live = set(live)
+    for s in reversed(stmts):
+        k = s[0]
+        if k == "assign":
+            live = (live - {s[1]}) | _uv(s[2], set())
+        elif k == "tassign":
+            live = (live - set(s[1])) | _uv(s[2], set())
+        elif k == "if":
+            c = const(s[1])
+            if c is True:
+                live = _ref_exposed(s[2], live, const)
+            elif c is False:
+                live = _ref_exposed(s[3], live, const)
+            else:
+                live = _ref_exposed(s[2], live, const) | _ref_exposed(s[3], live, const) | _uv(s[1], set())
+        elif k == "for":
+            r = set(live)
+            while True:
+                n = r | _ref_exposed(s[3], r, const)
+                if n == r:
+                    break
+                r = n
+            live = (r - {s[1]}) | _uv(s[2], set())
+        elif k == "while":
+            r = set(live) | {s[1]}
+            while True:
+                n = r | _ref_exposed(s[2], r, const)
+                if n == r:
+                    break
+                r = n
+            live = r
+        elif k == "break_if":
+            live = live | {s[1]}
+        elif k == "return":
+            live = set()
+            for e in s[1]:
+                _uv(e, live)
+        else:
+            raise TypeError(s)
+    return live
+
+
+def reference_exposed_rows(prog, fp):
+    """[(path, reference upward-exposed uses of the loop body)] for every loop of function fp, paths as in c01_run.analyzer_rows."""
+    truth = c01_gen.analysis_globals(prog)
+    top = _assigned_all(fp["body"], set())
+
+    def const(c):
+        if c[0] in ("var", "glob") and c[1] not in top and c[1] in truth:
+            return bool(truth[c[1]])
+        return None
+    out = []
+
+    def block(stmts, prefix, start):
+        for k, s in enumerate(stmts):
+            path = prefix + [start + k]
+            if s[0] == "if":
+                block(s[2], path, 0)
+                block(s[3], path, 1000)
+            elif s[0] in ("for", "while"):
+                body = s[3] if s[0] == "for" else s[2]
+                out.append((path, _ref_exposed(body, set(), const)))
+                block(body, path, 0)
+    block(fp["body"], [], 0)
+    return out
+
+
+def exposed_uses_complete(prog, fp, source):
+    """Names the reference says a loop body may read from outside / from an earlier iteration that the real exposed_uses omits."""
+    _rows, lrows = c01_run.analyzer_rows(source, fp["name"], c01_gen.analysis_globals(prog))
+    real = {tuple(p): set(e) for (p, _a, e) in lrows}
+    missing = []
+    for path, ref in reference_exposed_rows(prog, fp):
+        if tuple(path) in real and not ref <= real[tuple(path)]:
+            missing.append((path, sorted(ref - real[tuple(path)])))
+    return missing, len(real)
+
+
 def analysis_correspondence(ctx, programs):
     """programs: list of (prog, source).  Diff Gen/Analysis.v against the real AstAnalyzer."""
     cases, meta = [], []
@@ -76,6 +197,23 @@ def analysis_correspondence(ctx, programs):
             bad.append(meta[k * B + i])
     for name, src in bad[:5]:
         ctx.tie_broken("correspondence", "analysis:" + name, "Gen/Analysis.v and the real AstAnalyzer disagree on\n" + src)
+    # exposed_uses against the reference data flow (one direction: nothing the reference needs may be missing)
+    incomplete, n_loops = [], 0
+    for prog, src in programs:
+        for fp in prog["subs"] + [prog]:
+            try:
+                miss, nl_ = exposed_uses_complete(prog, fp, src)
+            except Exception:  # noqa: BLE001 -- the real analyzer refuses the program
+                continue
+            n_loops += nl_
+            if miss:
+                incomplete.append((fp["name"], src, miss))
+    for name, src, miss in incomplete[:5]:
+        ctx.tie_broken("correspondence", "analysis:" + name,
+                       f"AstAnalyzer.exposed_uses omits names that the loop body may read before writing them (loop path, names): {miss} on\n" + src)
+    ctx.obligation(f"exposed_uses complete: for {n_loops} loop bodies the real AstAnalyzer.exposed_uses contains every name a reference data flow "
+                   f"(loops run zero or more times) finds read before written", not incomplete,
+                   "; ".join(f"{n}: {m}" for n, _s, m in incomplete[:5]))
     ctx.obligation(f"correspondence analysis: Gen/Analysis.v (assigned_vars, live_in/out, exposed_uses) = real AstAnalyzer on {len(cases)} functions, "
                    f"{nrows} statements, {nl} loops", not bad and bool(res))
     ctx.cover(analysis_functions=len(cases), analysis_statement_rows=nrows, analysis_loop_rows=nl, analysis_disagreements=len(bad))
@@ -170,10 +308,57 @@ def skeleton_correspondence(ctx, decorated):
         lbad = set(_eval_tcases(ctx, lcases, True, "c01_skel_legacy"))
         for j, i in enumerate(bad):
             (broken if j in lbad else explained).append(meta[i])
+    skeleton_correspondence.last = (cases, meta)
     ctx.cover(skeleton_cases=len(cases), skeleton_accepted=sum(1 for m in meta if m[2]),
               skeleton_explained_by_known_defects=len(explained), skeleton_disagreements=len(broken),
               loops_listed_in_two_orders=sum(1 for m in meta if any(a != b for a, b in m[3])))
     return explained, broken, len(cases)
+
+
+# ----------------------------------------------------------------------------- which theorem classes the generated programs inhabit
+
+CLASS_BITS = {0: "S1_straightline", 1: "S2_ifelse", 2: "S3_for_toplevel", 3: "S3_nested_no_while_break", 4: "S3_nested"}
+FEAT_BITS = {5: "if_inside_loop", 6: "loop_inside_if", 7: "loop_inside_loop", 8: "for", 9: "for_with_break", 10: "while",
+             11: "while_with_break", 12: "if"}
+
+
+def theorem_classes(ctx, cases, meta):
+    """Evaluate, in Coq, the decidable class predicates of the C01 theorems (and the control-flow features) on every
+    function the converter accepted; record the distribution.  The features a theorem claims to cover must be inhabited
+    by programs of its class among the generated programs (otherwise the correspondence says nothing about them)."""
+    idx = [i for i, m in enumerate(meta) if m[2]]
+    B = 60
+    bodies = []
+    for lo in range(0, len(idx), B):
+        part = [cases[i] for i in idx[lo:lo + B]]
+        bodies.append(f"Open Scope string_scope.\nDefinition cases : list tcase := {clist(part)}.\n"
+                      f"Eval vm_compute in (map class_of cases).")
+    res = c01_run.coq_eval_par(ctx, SCRIPT_REQ + ["OV.Script.Translate", "OV.Script.Corr", "OV.Script.ClassCorr"], bodies, "c01_class")
+    masks = []
+    for ok, vals, raw in res:
+        if not ok or not vals:
+            ctx.tie_broken("harness", "theorem-classes:model-evaluation", raw[-1500:])
+            return
+        masks += common.parse_nat_list(vals[0])
+    dist = collections.Counter()
+    inside = collections.Counter()          # features among the programs of the complete S3 class
+    for m in masks:
+        cls = [n for b, n in CLASS_BITS.items() if m >> b & 1]
+        for n in cls:
+            dist[n] += 1
+        if not cls:
+            dist["no_theorem_class"] += 1
+        for b, n in FEAT_BITS.items():
+            if m >> b & 1:
+                dist["feature:" + n] += 1
+                if m >> 4 & 1:
+                    inside[n] += 1
+    ctx.cover(theorem_classes=dict(functions=len(masks), **dict(sorted(dist.items()))),
+              features_inside_S3_nested=dict(sorted(inside.items())))
+    need = ["if", "for", "while", "for_with_break", "while_with_break", "if_inside_loop", "loop_inside_if", "loop_inside_loop"]
+    missing = [n for n in need if not inside[n]]
+    ctx.obligation("every construct C01_graph_eq_python_nested_partial covers occurs in generated programs of its class (pre_ok): "
+                   + ", ".join(f"{n}={inside[n]}" for n in need), not missing, "not exercised: " + ", ".join(missing))
 
 
 # ----------------------------------------------------------------------------- direct oracle (the property itself, on the real code)
@@ -476,7 +661,7 @@ def run(ctx):
     ctx.assume("float inputs are dyadic and small; the NumPy reading is compared only when every intermediate value stays exactly representable")
     ctx.trust("harness/c01_gen.py printers (program -> Python source / Script.Syntax literal), harness/graphlit.py (proto -> graph literal)")
     ctx.check_props()
-    ctx.build(["Script/Corr.vo"])
+    ctx.build(["Script/Corr.vo", "Script/ClassCorr.vo"])
     quick = ctx.tier == "quick"
     scale = float(os.environ.get("OSVERIF_C01_SCALE", "1") or 1)      # development aid (self-tests under load); default 1
     n_prog = int((160 if quick else 1800) * scale)
@@ -526,6 +711,9 @@ def run(ctx):
         t1 = _time.time()
         explained, broken, n = skeleton_correspondence(ctx, decorated)
         phases["skeleton_correspondence_s"] = round(_time.time() - t1, 1)
+        t1 = _time.time()
+        theorem_classes(ctx, *skeleton_correspondence.last)
+        phases["theorem_classes_s"] = round(_time.time() - t1, 1)
         t1 = _time.time()
         flagged_progs = set()
         mech_count = collections.Counter()
